@@ -38,19 +38,31 @@ def sh(cmd):
 def main():
     area = sys.argv[1]
     checks = ["C%02d" % i for i in range(1, 21)] if "--all-checks" in sys.argv else AREA_CHECKS[area]
+    which = (1, 2, 3)
+    rerun = False
+    for a in sys.argv[2:]:
+        if a.startswith("--which="):
+            which = tuple(int(x) for x in a.split("=", 1)[1].split(","))
+        if a.startswith("--checks="):
+            checks = a.split("=", 1)[1].split(",")
+            rerun = True
     src = "/tmp/wt3/%s/_refactor" % area
+    if not os.path.isdir(src):
+        src = None
     alarms = 0
-    for i in (1, 2, 3):
-        diff = os.path.join(src, "refactor_%d.diff" % i)
-        if not os.path.exists(diff) or os.path.getsize(diff) == 0:
-            print("REFACTOR %s_%d: no diff" % (area, i))
-            continue
+    for i in which:
         dst = os.path.join(VERIF, "seeded", "benign", "%s_%d" % (area, i))
-        os.makedirs(dst, exist_ok=True)
-        shutil.copy(diff, os.path.join(dst, "refactor.diff"))
-        md = os.path.join(src, "refactor_%d.md" % i)
-        if os.path.exists(md):
-            shutil.copy(md, os.path.join(dst, "README.md"))
+        if src:
+            diff = os.path.join(src, "refactor_%d.diff" % i)
+            if not os.path.exists(diff) or os.path.getsize(diff) == 0:
+                print("REFACTOR %s_%d: no diff" % (area, i))
+                continue
+            os.makedirs(dst, exist_ok=True)
+            shutil.copy(diff, os.path.join(dst, "refactor.diff"))
+            md = os.path.join(src, "refactor_%d.md" % i)
+            if os.path.exists(md):
+                shutil.copy(md, os.path.join(dst, "README.md"))
+        diff = os.path.join(dst, "refactor.diff")          # the stored copy (the sub-agent's worktree may be gone)
         base = "/dev/shm/cvref_%s_%d" % (area, i)
         shutil.rmtree(base, ignore_errors=True)
         os.makedirs(base)
@@ -60,6 +72,9 @@ def main():
             if os.path.exists(os.path.join(REPO, f)):
                 shutil.copy(os.path.join(REPO, f), base)
         meta = {"area": area, "n": i, "checks": {}}
+        old_meta = None
+        if rerun and os.path.exists(os.path.join(dst, "meta.json")):
+            old_meta = json.load(open(os.path.join(dst, "meta.json")))
         r = sh("cd %s && patch -p1 -s < %s" % (base, diff))
         meta["applies"] = r.returncode == 0
         if r.returncode != 0:
@@ -80,6 +95,14 @@ def main():
                 print("REFACTOR %-16s %s -> %s drift=%d (%ds) %s" % ("%s_%d" % (area, i), c, flag, drift, time.time() - t0,
                                                                     " | ".join(viol)[:300] + meta["checks"][c]["stderr"][:200]))
                 sys.stdout.flush()
+        if old_meta is not None:
+            # a re-run of some checks after the machinery (or /repo) changed: the first verdicts stay on record
+            for c, v in meta["checks"].items():
+                if c in old_meta.get("checks", {}) and old_meta["checks"][c].get("exit") != v["exit"]:
+                    old_meta.setdefault("superseded", {})[c] = old_meta["checks"][c]
+                old_meta.setdefault("checks", {})[c] = v
+            old_meta["repo_head_of_last_run"] = sh("git -C %s rev-parse --short HEAD" % REPO).stdout.strip()
+            meta = old_meta
         with open(os.path.join(dst, "meta.json"), "w") as f:
             json.dump(meta, f, indent=1)
         shutil.rmtree(base, ignore_errors=True)
